@@ -536,9 +536,26 @@ def gen_dill_case(rng, kind):
     n = rng.randint(5, 8) if gp else rng.randint(8, 30)
     ops = [rng.choice(["suggest", "suggest", "suggest", "report", "report", "complete", "error"]) for _ in range(2 * n)]
     return dict(kind="dill", sched=kind, spec=spec, pts=h.gen_points(rng, spec, space), seed=rng.randrange(10 ** 6),
+                search_options=dict(opt_nstarts=rng.choice([1, 2])) if gp else None,
                 num_init_random=rng.choice([1, 2, 3, 50]), ops=ops, max_suggest=n,
                 cuts=sorted(set([0] + [rng.randint(0, len(ops)) for _ in range(1 if gp else 3)])),
                 metrics=[round(rng.uniform(0, 1), 3) for _ in range(4 * n)])
+
+
+def gen_dill_multiworker(rng, kind):
+    """several workers: the checkpoint is taken right after a model-based suggestion (its trial pending), and the
+    next suggestions arrive BEFORE any new result: the restored scheduler must not refit / re-decide differently"""
+    spec = [["x", "dom", ["uniform", 0.0, 1.0]], ["y", "dom", ["uniform", -1.0, 1.0]],
+            rng.choice([["k", "dom", ["randint", 1, 6]], ["lr", "dom", ["loguniform", 1e-4, 0.1]]])]
+    k = rng.randint(4, 6)
+    prefix = ["suggest", "complete"] * k + ["suggest"]
+    suffix = ["suggest", "suggest", "complete", "complete", "suggest", "suggest", "complete", "suggest"]
+    return dict(kind="dill", sched=kind, spec=spec, pts=rng.choice([None, []]), seed=rng.randrange(10 ** 6),
+                num_init_random=rng.choice([2, 3]), ops=prefix + suffix, max_suggest=len(prefix) + len(suffix),
+                cuts=[len(prefix)], metrics=[round(rng.uniform(0, 1), 3) for _ in range(40)],
+                # random restarts of the parameter fit: a refit on unchanged data is then not a no-op
+                search_options=dict(opt_nstarts=2, opt_maxiter=rng.choice([3, 15])),
+                directed="checkpoint_with_pending_trial_then_suggest_before_result")
 
 
 def make_dill_scheduler(case, space):
@@ -635,6 +652,8 @@ def run(ctx, replay=None):
         cases += [gen_gs_twin(rng) for _ in range(ctx.n(100, 1000))]
         cases += [gen_gp_twin(rng) for _ in range(ctx.n(20, 100))]
         cases += [gen_gp_twin(rng, nearly_exhausted=True) for _ in range(ctx.n(6, 24))]
+        for kind in ("fifo-bayesopt", "hb-stopping-bayesopt"):
+            cases += [gen_dill_multiworker(rng, kind) for _ in range(ctx.n(3, 15))]
         for kind in DILL_KINDS:
             cases += [gen_dill_case(rng, kind) for _ in range(ctx.n(6 if "bayesopt" in kind else 16, 40 if "bayesopt" in kind else 150))]
     rc_terms, rc_meta, gc_terms, gc_meta = [], [], [], []
